@@ -55,11 +55,54 @@ def lmplz_args(case, mem="64M", extra=()):
     return a + list(extra)
 
 
+def parse_u64(tok):
+    """boost::lexical_cast<uint64_t> as observed: optional sign, decimal digits, magnitude < 2^64, '-' wraps."""
+    tok = str(tok)
+    m = re.match(r"^([+-]?)([0-9]+)$", tok)
+    if not m:
+        return None
+    v = int(m.group(2))
+    if v >= 2 ** 64:
+        return None
+    return (2 ** 64 - v) % 2 ** 64 if m.group(1) == "-" else v
+
+
+def parse_prune(case):
+    """Independent transcription of the option-vector rule of lmplz (ParsePruning): ("ok", padded list) or (class, None)."""
+    N = case["order"]
+    pv = case.get("prune")
+    if pv is None:
+        return "ok", [0] * N
+    vals = [parse_u64(t) for t in pv]
+    if any(v is None for v in vals):
+        return "bad-threshold", None
+    if len(vals) > N:
+        return "prune-count", None
+    if any(a > b for a, b in zip(vals, vals[1:])):
+        return "prune-order", None
+    return "ok", (vals + [vals[-1]] * N)[:N]
+
+
+def prune_kind(case):
+    cls, thr = parse_prune(case)
+    if cls != "ok":
+        return "illegal:" + cls
+    if case.get("prune") is None:
+        return "none"
+    return "uni" if thr[0] > 0 else "hi"
+
+
 def classify(rc, err):
     if rc == 0:
         return "ok"
     if rc == "timeout":
         return "timeout"
+    if "Pruning thresholds should be in non-decreasing order" in err:
+        return "prune-order"
+    if "You specified pruning thresholds for orders" in err:
+        return "prune-count"
+    if "Bad pruning threshold" in err:
+        return "bad-threshold"
     if "Could not calculate Kneser-Ney discounts" in err or "discount out of range" in err:
         return "bad-discount"
     if "Special word" in err:
@@ -104,7 +147,8 @@ def run_lmplz(lmplz, case, wd, tag="t", mem="64M", extra=(), intermediate=False,
     arpa = None
     if rc == 0 and os.path.exists(ap):
         arpa = open(ap, "rb").read()
-    return dict(cls=classify(rc, e), rc=rc, stderr=e, arpa=arpa, arpa_path=ap, inter=base, cmd=cmd, corpus_path=cp)
+    return dict(cls=classify(rc, e), rc=rc, stderr=e, arpa=arpa, arpa_path=ap, inter=base, cmd=cmd, corpus_path=cp,
+                wrote=os.path.exists(ap))
 
 
 def parse_statistics(stderr):
@@ -176,7 +220,7 @@ def _unlimit_stack():
             pass
 
 
-def run_driver(dexe, case, wd, tag="t", mode="stream", flush_adjusted=True, keep_specials=True, timeout=900):
+def run_driver(dexe, case, wd, tag="t", mode="stream", flush_adjusted=True, keep_specials=True, timeout=900, parse_only=False):
     """Returns dict(cls, stats {n: (n1..n4,count,kept)}, discs {n: (fallback?, [Fractions])}, uniform, grams {n: {words: (p, bo)}})."""
     cp = os.path.join(wd, tag + ".txt")
     if not os.path.exists(cp):
@@ -187,7 +231,9 @@ def run_driver(dexe, case, wd, tag="t", mode="stream", flush_adjusted=True, keep
          "skip=%d" % (1 if case.get("skip") else 0), "flushAdjusted=%d" % (1 if flush_adjusted else 0),
          "keepSpecials=%d" % (1 if keep_specials else 0)]
     if case.get("prune") is not None:
-        a.append("prune=" + ",".join(str(x) for x in case["prune"]))
+        a.append("prune=" + "|".join(str(x) for x in case["prune"]))
+    if parse_only:
+        a.append("parseonly=1")
     if case.get("limit") is not None:
         lp = os.path.join(wd, tag + ".limit")
         with open(lp, "wb") as f:
@@ -261,14 +307,13 @@ def reference(case):
     (Chen & Goodman 1998; Heafield et al. 2013), exact arithmetic.  Independent of the Lean model.
     Returns dict(cls, stats {n: [n0..n4]}, discs {n: (fallback?, [D1,D2,D3])}, grams {n: {words: (p, bo)}}, header {n: kept})."""
     N = case["order"]
+    pcls, thr = parse_prune(case)
+    if pcls != "ok":
+        return dict(cls=pcls)            # the tool must refuse up front
     sents, saw = tokenize(case["corpus"], case.get("skip"))
     if saw and not case.get("skip"):
         return dict(cls="special-symbol")
     BOS, EOS, UNK = b"<s>", b"</s>", b"<unk>"
-    thr = [0] * N
-    if case.get("prune") is not None:
-        pv = list(case["prune"])
-        thr = (pv + [pv[-1]] * N)[:N]
     allowed = None
     if case.get("limit") is not None:
         allowed = set(t for t in re.split(rb"[\0\t\n\r ]+", case["limit"]) if t) | {BOS, EOS, UNK}
